@@ -751,5 +751,70 @@ m("c02-delegate-mirrors-message-amount", "C02", "precompiles/staking/tx.go",
   "\t\t_ = balanceBefore\n\t\tstateDB.(*statedb.StateDB).SubBalance(contract.CallerAddress, msg.Amount.Amount.BigInt())\n",
   "mirror-measures-the-balance", "the mirror is the message amount again: pending rewards paid out by the hook are burned")
 
+# ---------------- rules added from the wave-6 seeds and the two direct-call findings ----------------
+m("c02-withdraw-mirrors-caller-always", "C02", "precompiles/distribution/tx.go",
+  "\tif isContractDelegator && common.BytesToAddress(withdrawAddr) == contract.CallerAddress {\n", "\t_ = withdrawAddr\n\tif isContractDelegator {\n",
+  "mirror-follows-the-payee", "rewards paid to a foreign withdraw address are minted again to the caller")
+m("c03-deductfee-zero-fastpath", "C03", "app/ante/cosmos/fees.go",
+  "\t\tfee, priority, err = dfd.txFeeChecker(ctx, feeTx)\n\t\tif err != nil {\n\t\t\treturn ctx, err\n\t\t}\n", "\t\tfee, priority, err = dfd.txFeeChecker(ctx, feeTx)\n\t\tif err != nil {\n\t\t\treturn ctx, err\n\t\t}\n\t\tif fee.IsZero() {\n\t\t\treturn ctx, nil\n\t\t}\n",
+  "runs-through", "a zero-fee Cosmos tx ends the ante chain before signature verification")
+m("c05-flush-in-runsetup", "C05", "precompiles/common/precompile.go",
+  "\tctx = stateDB.GetContext()\n", "\tctx = stateDB.GetContext()\n\tif err = stateDB.Commit(); err != nil {\n\t\treturn sdk.Context{}, nil, nil, uint64(0), nil, err\n\t}\n",
+  "never-flushes", "pending EVM state is flushed before the call is validated")
+m("c06-gentx-chain", "C06", "app/ante/handler_options.go",
+  "func newCosmosAnteHandler(options HandlerOptions) sdk.AnteHandler {\n\treturn sdk.ChainAnteDecorators(", "func newCosmosAnteHandler(options HandlerOptions) sdk.AnteHandler {\n\tshort := sdk.ChainAnteDecorators(ante.NewSetUpContextDecorator())\n\tfull := newCosmosAnteHandlerFull(options)\n\treturn func(ctx sdk.Context, tx sdk.Tx, sim bool) (sdk.Context, error) {\n\t\tif ctx.BlockHeight() == 0 && !ctx.IsCheckTx() {\n\t\t\treturn short(ctx, tx, sim)\n\t\t}\n\t\treturn full(ctx, tx, sim)\n\t}\n}\n\nfunc newCosmosAnteHandlerFull(options HandlerOptions) sdk.AnteHandler {\n\treturn sdk.ChainAnteDecorators(",
+  "returns-its-chain", "a shorter chain without the gates for deliver mode at height 0")
+m("c07-hook-failure-charges-limit", "C07", "x/evm/keeper/state_transition.go",
+  "\t\t\tres.Logs = nil\n\t\t} else if commit != nil {", "\t\t\tres.Logs = nil\n\t\t\tres.GasUsed = msg.Gas()\n\t\t} else if commit != nil {",
+  "writes-GasUsed", "a failing post-processing hook charges the whole gas limit")
+m("c07-refund-uint64-fastpath", "C07", "x/evm/keeper/gas.go",
+  "\tremaining := new(big.Int).Mul(new(big.Int).SetUint64(leftoverGas), msg.GasPrice())\n", "\tremaining := new(big.Int).Mul(new(big.Int).SetUint64(leftoverGas), msg.GasPrice())\n\tif msg.GasPrice().IsUint64() {\n\t\tremaining = new(big.Int).SetUint64(leftoverGas * msg.GasPrice().Uint64())\n\t}\n",
+  "RefundGas#arbitrary-precision", "the refund wraps modulo 2^64")
+m("c08-setaccount-replaces-vesting", "C08", "x/evm/keeper/statedb.go",
+  "\tif ethAcct, ok := acct.(haqqtypes.EthAccountI); ok {\n", "\tif _, isEth := acct.(*haqqtypes.EthAccount); !isEth && account.IsContract() {\n\t\tacct = k.accountKeeper.NewAccountWithAddress(ctx, cosmosAddr)\n\t\t_ = acct.SetSequence(account.Nonce)\n\t}\n\tif ethAcct, ok := acct.(haqqtypes.EthAccountI); ok {\n",
+  "keeps-the-stored-account", "a vesting account that receives code is replaced by a fresh account")
+m("c09-readschedule-skips-empty", "C09", "x/vesting/types/schedule.go",
+  "\t\tcoins = coins.Add(period.Amount...)\n\t\telapsedTime += period.Length\n", "\t\tif period.Amount.IsZero() {\n\t\t\tcontinue\n\t\t}\n\t\tcoins = coins.Add(period.Amount...)\n\t\telapsedTime += period.Length\n",
+  "clock-advances", "an empty period does not advance the schedule clock")
+m("c09-merge-gets-undefaulted-schedules", "C09", "x/vesting/keeper/msg_server.go",
+  "msg.GetLockupPeriods(), msg.GetVestingPeriods(), vestingCoins)", "append(sdkvesting.Periods{}, msg.GetLockupPeriods()[:len(msg.GetLockupPeriods()):len(msg.GetLockupPeriods())]...), msg.GetVestingPeriods(), vestingCoins)",
+  "branches-agree/lockupPeriods", "the merge branch gets a differently sourced schedule")
+m("c11-redeem-tolerates-schedule-error", "C11", "x/liquidvesting/keeper/msg_server.go",
+  "\t\tif err != nil {\n\t\t\treturn nil, errorsmod.Wrapf(types.ErrRedeemFailed, \"failed to apply vesting schedule to account %s: %s\", toAddress, err.Error())\n\t\t}\n", "\t\tif err != nil && !vestingtypes.ErrApplyShedule.Is(err) {\n\t\t\treturn nil, errorsmod.Wrapf(types.ErrRedeemFailed, \"failed to apply vesting schedule to account %s: %s\", toAddress, err.Error())\n\t\t}\n",
+  "err-of-ApplyVestingSchedule", "a receiver that cannot hold the schedule gets the coins unlocked")
+m("c12-ratio-dust-reports-success", "C12", "x/ucdao/keeper/msg_server.go",
+  "\ttransferred, err := k.Keeper.TransferOwnership(ctx, owner, newOwner, coins)\n\tif err != nil {\n\t\treturn nil, err\n\t}\n", "\ttransferred, err := k.Keeper.TransferOwnership(ctx, owner, newOwner, coins)\n\tif err != nil {\n\t\tif len(coins) > 1 {\n\t\t\treturn &types.MsgTransferOwnershipWithRatioResponse{Coins: sdk.NewCoins()}, nil\n\t\t}\n\t\treturn nil, err\n\t}\n",
+  "err-of-TransferOwnership", "the handler answers success after the keeper refused: the owner's debit is committed")
+m("c12-index-skips-blocked", "C12", "x/ucdao/keeper/account_balances.go",
+  "func (k BaseKeeper) setHoldersIndex(ctx sdk.Context, addr sdk.AccAddress) {\n\tholdersStore := k.getHoldersStore(ctx)\n", "func (k BaseKeeper) setHoldersIndex(ctx sdk.Context, addr sdk.AccAddress) {\n\tholdersStore := k.getHoldersStore(ctx)\n\tif k.bk.BlockedAddr(addr) && !holdersStore.Has(address.MustLengthPrefix(addr)) {\n\t\treturn\n\t}\n",
+  "decided-by-balances-only", "module accounts with a DAO balance are left out of the index")
+m("c13-mint-helper-uses-held-coins", "C13", "x/coinomics/keeper/inflation.go",
+  "\tcoins := sdk.NewCoins(coin)\n\n\t// Skip minting if no coins are specified", "\tif held := k.bankKeeper.GetBalance(ctx, k.accountKeeper.GetModuleAddress(types.ModuleName), coin.Denom); held.Amount.IsPositive() && held.Amount.LT(coin.Amount) {\n\t\tcoin = coin.Sub(held)\n\t}\n\tcoins := sdk.NewCoins(coin)\n\n\t// Skip minting if no coins are specified",
+  "mints-its-parameter", "the helper mints less than the formula amount when the module account holds coins")
+m("c15-multisend-index-gt-zero", "C15", "x/bank/keeper/msg_server.go",
+  "\tfor _, out := range msg.Outputs {\n\t\taccAddr := sdk.MustAccAddressFromBech32(out.Address)\n\n\t\tif k.BlockedAddr(accAddr) {", "\tfor i, out := range msg.Outputs {\n\t\taccAddr := sdk.MustAccAddressFromBech32(out.Address)\n\t\tif i == 0 {\n\t\t\tcontinue\n\t\t}\n\n\t\tif k.BlockedAddr(accAddr) {",
+  "every-output-tested", "the first output of a multi-send is not tested")
+m("c15-pool-by-status", "C15", "app/upgrades/v1.7.6/handler.go",
+  "\tif err := bk.UndelegateCoinsFromModuleToAccount(ctx, stakingtypes.NotBondedPoolName, delAddr, coins); err != nil {", "\tsrcPool := stakingtypes.NotBondedPoolName\n\tif !validator.IsUnbonded() && coins.IsZero() {\n\t\tsrcPool = stakingtypes.BondedPoolName\n\t}\n\tif err := bk.UndelegateCoinsFromModuleToAccount(ctx, srcPool, delAddr, coins); err != nil {",
+  "pool-is-constant", "the pool to debit is chosen from the validator status at run time")
+m("c16-delegate-own-precondition", "C16", "precompiles/staking/tx.go",
+  "\tbalanceBefore := p.stakingKeeper.GetBondDenomBalance(ctx, contract.CallerAddress.Bytes())\n", "\tbalanceBefore := p.stakingKeeper.GetBondDenomBalance(ctx, contract.CallerAddress.Bytes())\n\tif balanceBefore.Amount.LT(msg.Amount.Amount) {\n\t\treturn nil, fmt.Errorf(\"insufficient balance\")\n\t}\n",
+  "no-extra-rejection", "the precompile rejects on a pre-condition of its own before the native call")
+m("c17-declared-gas-saturates", "C17", "x/feemarket/keeper/keeper.go",
+  "\tresult := k.GetTransientGasWanted(ctx) + gasWanted\n", "\tresult := k.GetTransientGasWanted(ctx) + gasWanted\n\tif limit := uint64(30_000_000); result > limit {\n\t\tresult = limit\n\t}\n",
+  "plain-sum", "the declared-gas counter saturates")
+m("c17-export-transient-gas", "C17", "x/feemarket/genesis.go",
+  "\t\tBlockGas: k.GetBlockGasWanted(ctx),\n", "\t\tBlockGas: k.GetTransientGasWanted(ctx),\n",
+  "exports-persisted-block-gas", "the export reads the transient counter (always 0 outside a block)")
+m("c18-unwrap-single-message-fastpath", "C18", "x/evm/types/utils.go",
+  "\t\ttxHash := ethMsg.AsTransaction().Hash()\n\t\tethMsg.Hash = txHash.Hex()\n\t\tif txHash == ethHash {", "\t\ttxHash := ethMsg.AsTransaction().Hash()\n\t\tethMsg.Hash = txHash.Hex()\n\t\tif len((*tx).GetMsgs()) == 1 {\n\t\t\treturn ethMsg, nil\n\t\t}\n\t\tif txHash == ethHash {",
+  "returns-the-asked-transaction", "the only message of an envelope is returned for any hash")
+m("c18-effective-fee-zero-basefee", "C18", "x/evm/types/msg.go",
+  "\treturn txData.EffectiveFee(baseFee)\n", "\tif baseFee != nil && baseFee.Sign() == 0 {\n\t\treturn txData.Fee()\n\t}\n\treturn txData.EffectiveFee(baseFee)\n",
+  "GetEffectiveFee#delegates", "a zero base fee is treated as no base fee")
+m("c19-display-denom-alias", "C19", "x/erc20/keeper/proposals.go",
+  "\tk.SetDenomMap(ctx, pair.Denom, pair.GetID())\n\tk.SetERC20Map(ctx, common.HexToAddress(pair.Erc20Address), pair.GetID())\n\n\treturn &pair, nil\n}\n\n// RegisterERC20 creates", "\tk.SetDenomMap(ctx, pair.Denom, pair.GetID())\n\tif coinMetadata.Display != \"\" {\n\t\tk.SetDenomMap(ctx, coinMetadata.Display, pair.GetID())\n\t}\n\tk.SetERC20Map(ctx, common.HexToAddress(pair.Erc20Address), pair.GetID())\n\n\treturn &pair, nil\n}\n\n// RegisterERC20 creates",
+  "SetDenomMap-key", "an alias entry that the genesis import does not rebuild")
+
 json.dump(M, open('/verif/mutants.json', 'w'), indent=1)
 print(len(M), "mutants written")
